@@ -829,6 +829,9 @@ func main() {
 	// ---------------------------------------------------------------- column-name alphabets (systematic, seed-independent)
 	nameVariantCases(o, pm)
 
+	// ---------------------------------------------------------------- malformed PREPARED metadata (systematic)
+	malformedPreparedCases(o)
+
 	// ---------------------------------------------------------------- one handle, many calls
 	for i := 0; i < n; i++ {
 		querySeqCase(o, i)
@@ -1612,4 +1615,84 @@ func nameVariantCases(o *hlib.Out, pm gocql.VerifC09Partitioner) {
 			}
 		}
 	}
+}
+
+// ---- PREPARED responses whose partition-key indexes do not designate a bind column, or that describe no bind
+// columns at all: GetRoutingKey must answer with an error resp. "no routing key" - never a run-time panic
+// (it runs inside TokenAwareHostPolicy.Pick on the caller's goroutine). Systematic, seed-independent.
+func malformedPreparedCases(o *hlib.Out) {
+	caseNo := 0
+	run := func(kind string, colCount int, names []string, pkey []int, vals []interface{}, wantErr bool) {
+		caseNo++
+		stmt := fmt.Sprintf("SELECT malformed%d", caseNo)
+		cinfo := make([]gocql.ColumnInfo, len(names))
+		per := make([]mres, len(names))
+		for k, nm := range names {
+			cinfo[k] = gocql.ColumnInfo{Keyspace: "ks", Table: "t", Name: nm, TypeInfo: nt(gocql.TypeInt)}
+			per[k] = mres{err: true}
+			if k < len(vals) {
+				per[k] = marshal(cinfo[k].TypeInfo, vals[k])
+			}
+		}
+		if len(cinfo) == 0 {
+			cinfo = nil
+		}
+		tm := &gocql.TableMetadata{Keyspace: "ks", Name: "t", PartitionKey: []*gocql.ColumnMetadata{{Keyspace: "ks", Table: "t", Name: "a", Type: nt(gocql.TypeInt)}}}
+		km := &gocql.KeyspaceMetadata{Name: "ks", Tables: map[string]*gocql.TableMetadata{"t": tm}}
+		mk := func() *gocql.Session {
+			return gocql.VerifC09NewSession([]gocql.VerifC09Prepared{{Stmt: stmt, ColCount: colCount, Columns: cinfo, PKeyColumns: pkey, Keyspace: "ks", Table: "t"}}, []*gocql.KeyspaceMetadata{km})
+		}
+		common := fmt.Sprintf("%s %s %s false %s %s %s", hlib.Z(int64(colCount)), strLists(names), intsZ(pkey), hlib.Some(strLists([]string{"a"})), perTerm(per), hlib.Z(int64(len(vals))))
+		monitor := func(idx int, what string, b []byte, err error, pan bool) {
+			switch {
+			case pan:
+				o.Violate(idx, "routing-key-malformed-prepared", "", fmt.Sprintf("%s: GetRoutingKey panicked on PREPARED metadata colCount=%d columns=%q pk indexes=%v", what, colCount, names, pkey), nil)
+			case wantErr && (err == nil || b != nil):
+				o.Violate(idx, "routing-key-malformed-prepared", "", fmt.Sprintf("%s: pk indexes %v with %d bind columns gave key %x, err %v; an error is due", what, pkey, len(names), b, err), nil)
+			case !wantErr && (err != nil || b != nil):
+				o.Violate(idx, "routing-key-malformed-prepared", "", fmt.Sprintf("%s: no bind columns described (colCount=%d, %d columns) gave key %x, err %v; (nil, nil) is due", what, colCount, len(names), b, err), nil)
+			}
+		}
+		{
+			q := mk().Query(stmt, vals...)
+			b, err, pan := guarded(q.GetRoutingKey)
+			idx := o.Case("query-"+kind, true, fmt.Sprintf("CGetRK None false %s %s", common, rkTerm(b, err, pan)))
+			monitor(idx, "Query", b, err, pan)
+			if !pan { // an index error is not cached: the second call must say the same
+				b2, err2, pan2 := guarded(q.GetRoutingKey)
+				if pan2 || (err == nil) != (err2 == nil) || !bytes.Equal(b, b2) {
+					o.Violate(idx, "routing-key-stable", "", fmt.Sprintf("second GetRoutingKey returned %x,%v (panic %v) after %x,%v", b2, err2, pan2, b, err), nil)
+				}
+			}
+		}
+		{
+			bt := mk().NewBatch(gocql.LoggedBatch)
+			bt.Query(stmt, vals...)
+			b, err, pan := guarded(bt.GetRoutingKey)
+			idx := o.Case("batch-"+kind, true, fmt.Sprintf("CBatchRK None true false %s %s", common, rkTerm(b, err, pan)))
+			monitor(idx, "Batch", b, err, pan)
+		}
+	}
+	all := []string{"a", "b", "c", "d"}
+	allVals := []interface{}{int32(1), int32(2), int32(3), int32(4)}
+	for ncols := 1; ncols <= 4; ncols++ {
+		for _, bad := range []int{-1, ncols, ncols + 2, -1 << 31, 1<<31 - 1} {
+			// the bad index alone, first, last and in the middle of otherwise valid indexes
+			run("bad-pk-index", ncols, all[:ncols], []int{bad}, allVals[:ncols], true)
+			run("bad-pk-index", ncols, all[:ncols], []int{bad, 0}, allVals[:ncols], true)
+			run("bad-pk-index", ncols, all[:ncols], []int{0, bad}, allVals[:ncols], true)
+			if ncols >= 2 {
+				run("bad-pk-index", ncols, all[:ncols], []int{ncols - 1, bad, 0}, allVals[:ncols], true)
+			}
+		}
+	}
+	// a column count without column descriptions (metadata flagged absent), with and without pk indexes
+	for _, cc := range []int{1, 3} {
+		run("no-columns-described", cc, nil, nil, allVals[:cc], false)
+		run("no-columns-described", cc, nil, []int{0}, allVals[:cc], false)
+		run("no-columns-described", cc, nil, []int{2, 0}, nil, false)
+	}
+	// column descriptions with a zero count
+	run("zero-column-count", 0, all[:2], nil, allVals[:2], false)
+	run("zero-column-count", 0, all[:2], []int{0}, allVals[:2], false)
 }
